@@ -77,7 +77,16 @@ class ObsFacts:
         self.cn.written = None
         self.effects = [e for e in (store_effect(self.cn, ev) for ev in self.s.events
                                     if ev.kind == "store") if e is not None]
-        self.raises = [ev for ev in self.s.events if ev.kind == "raise"]
+        # (the dispatch's own "not implemented for this action" arm: not the re-raise of a handler,
+        # and not a KeyError / IndexError / TypeError / ValueError raised for a malformed argument)
+        def _dispatch_raise(ev):
+            if any(c[0] == "exc" for c in ev.pc):
+                return False
+            x = ev.data.get("exc")
+            name = x[1] if x and x[0] in ("call", "ext") else ""
+            return not any(name.endswith(t) for t in ("KeyError", "IndexError", "TypeError",
+                                                      "ValueError", "AttributeError"))
+        self.raises = [ev for ev in self.s.events if ev.kind == "raise" and _dispatch_raise(ev)]
 
 
 def vec_cells(effects, cn, site):
